@@ -55,6 +55,10 @@ pub enum Plan {
     StructBytes { range: Option<(u64, u64)> },
     /// every header field set to every boundary value
     FieldLies { range: Option<(u64, u64)> },
+    /// bytes LOST or gained in the middle (a record cut short, everything behind it shifted): every deletion of
+    /// 1..=20 bytes and every insertion of 1, 2, 4 or 8 bytes at every offset of the last 160 bytes (end records,
+    /// ZIP64 end record and locator, the tail of the directory)
+    TailEdits { range: Option<(u64, u64)> },
 }
 
 #[derive(Serialize, Deserialize, Clone, Debug, PartialEq)]
@@ -726,7 +730,14 @@ impl Scenario for Hostile {
         let img_len = seed_image(&seedimg).len() as u64;
         let plan = match plan_kind {
             0 | 1 => Plan::Prefixes { range: None },
-            2 | 3 | 4 => Plan::StructBytes { range: None },
+            2 | 3 => Plan::StructBytes { range: None },
+            4 => {
+                if Rng::derive(s, "tail-edits").chance(1, 2) {
+                    Plan::TailEdits { range: None }
+                } else {
+                    Plan::StructBytes { range: None }
+                }
+            }
             5 => Plan::FieldLies { range: None },
             _ => {
                 let n = rs.weighted(&[(70, 1u64), (25, 3), (5, 12)]);
@@ -822,6 +833,35 @@ impl Scenario for Hostile {
                 for k in lo..hi.min(n0 + 1) {
                     *ctx.fired.entry("Truncate".into()).or_insert(0) += 1;
                     if let Err(v) = one(&img0[..k as usize], format!("prefix of {k} bytes"), ctx) {
+                        return v;
+                    }
+                }
+            }
+            Plan::TailEdits { range } => {
+                let span = n0.min(160);
+                let first = n0 - span;
+                let per = 20 + 4 * 2; // deletions of 1..=20 bytes, insertions of 1/2/4/8 bytes of 0x00 and of 0xff
+                let total = span * per;
+                let (lo, hi) = range.unwrap_or((0, total));
+                for idx in lo..hi.min(total) {
+                    let at = (first + idx / per) as usize;
+                    let k = idx % per;
+                    let mut img = img0.clone();
+                    let what = if k < 20 {
+                        let len = (k as usize + 1).min(img.len() - at);
+                        img.drain(at..at + len);
+                        *ctx.fired.entry("DeleteRange".into()).or_insert(0) += 1;
+                        format!("{len} bytes deleted at {at}")
+                    } else {
+                        let j = k - 20;
+                        let len = [1usize, 2, 4, 8][(j / 2) as usize];
+                        let val = if j % 2 == 0 { 0u8 } else { 0xff };
+                        let ins = vec![val; len];
+                        img.splice(at..at, ins);
+                        *ctx.fired.entry("InsertBytes".into()).or_insert(0) += 1;
+                        format!("{len} bytes of {val:#x} inserted at {at}")
+                    };
+                    if let Err(v) = one(&img, what, ctx) {
                         return v;
                     }
                 }
@@ -990,6 +1030,11 @@ impl Scenario for Hostile {
             Plan::FieldLies { range } => {
                 for r in bis(range) {
                     out.push(HostCase { plan: Plan::FieldLies { range: r }, ..c.clone() });
+                }
+            }
+            Plan::TailEdits { range } => {
+                for r in bis(range) {
+                    out.push(HostCase { plan: Plan::TailEdits { range: r }, ..c.clone() });
                 }
             }
         }
